@@ -61,13 +61,105 @@ def is_self_call(c: ast.Call, name: str) -> bool:
 def shadow(chk, src_rule: str, dst_rule: str, fn):
     """Run another property's rule function `fn(chk)`; keep only its obligations of `src_rule`, recorded under `dst_rule`
     (obligations of the other property's remaining rules are dropped: they are decided by that property's own check)."""
-    before = len(chk.obligations)
-    fn(chk)
-    new = chk.obligations[before:]
-    del chk.obligations[before:]
-    for o in new:
-        if o.rule == src_rule:
-            o.rule = dst_rule
-            if hasattr(o, "key") and isinstance(getattr(o, "key", None), str):
-                pass
-            chk.obligations.append(o)
+    before, ubefore = len(chk.obligations), len(chk.unknowns)
+    try:
+        fn(chk)
+    finally:
+        new = chk.obligations[before:]
+        del chk.obligations[before:]
+        unew = chk.unknowns[ubefore:]
+        del chk.unknowns[ubefore:]
+        for o in new:
+            if o.rule == src_rule:
+                o.rule = dst_rule
+                chk.obligations.append(o)
+        for o in unew:
+            if o.rule == src_rule:
+                o.rule = dst_rule
+                chk.unknowns.append(o)
+
+
+# ------------------------------------------------------------------------------------------------ canonical views (sa/canon.py)
+_VCACHE = {}
+
+
+def views(repo: Repo, ci, fn, rel=None):
+    """cached Views (source, structural normal form, helpers inlined, temporaries substituted) of one function"""
+    from ..canon import Views
+    from ..pattern import norm
+    k = (id(repo), id(fn))
+    if k not in _VCACHE:
+        _VCACHE[k] = Views(fn, repo, ci, rel or (repo.module_of(fn).rel if ci is None else None), normaliser=norm)
+    return _VCACHE[k]
+
+
+def canon_fn(repo: Repo, ci, fn, level=3, rel=None):
+    """one canonical view: 1 structural, 2 + private helpers inlined, 3 + single-assignment temporaries substituted"""
+    v = views(repo, ci, fn, rel).views
+    # Views order: [source, V1, V2, V3(V2), V3(V1)]
+    # level 4: structural + substituted, helpers NOT inlined (for rules that are about the calls of those helpers)
+    return {0: v[0], 1: v[1], 2: v[2] if len(v) > 2 else v[-1], 3: v[3] if len(v) > 3 else v[-1], 4: v[4] if len(v) > 4 else v[-1]}[level]
+
+
+def match(repo: Repo, ci, fn, patterns, bound=None, nested=True, distinct=True):
+    """unify metavariable patterns against the statements of all views of fn; returns bindings or None"""
+    from ..pattern import unify
+    S = views(repo, ci, fn).statements(nested)
+    b, _ = unify(list(patterns), S, bound, distinct)
+    return b
+
+
+def stmts(repo: Repo, ci, fn, nested=True):
+    return views(repo, ci, fn).statements(nested)
+
+
+_GCACHE = {}
+
+
+def cfgv(repo: Repo, ci, fn, level=3):
+    """(canonical view, its CFG)"""
+    from ..cfg import CFG
+    k = (id(repo), id(fn), level)
+    if k not in _GCACHE:
+        v = canon_fn(repo, ci, fn, level)
+        _GCACHE[k] = (v, CFG(v))
+    return _GCACHE[k]
+
+
+def pmatch(pattern: str, node, bound=None):
+    """full match of one metavariable pattern against one AST node (statement header or expression); returns bindings or None"""
+    from ..pattern import _compile, norm
+    rx, new = _compile(pattern, dict(bound or {}))
+    m = rx.fullmatch(norm(node))
+    if not m:
+        return None
+    return {**(bound or {}), **{n: m.group(n) for n in new}}
+
+
+def nodes_matching(g, pattern: str, bound=None, kinds=("stmt", "return", "test", "iter", "raise")):
+    out = []
+    for n in g.nodes:
+        if n.ast is None:
+            continue
+        a = n.ast
+        if isinstance(a, (ast.For, ast.While, ast.If, ast.With, ast.Try)):
+            continue
+        b = pmatch(pattern, a, bound)
+        if b is not None:
+            out.append((n, b))
+    return out
+
+
+def guarded(g, node, pattern: str, label: str, bound=None, only_raise_otherwise=True) -> bool:
+    """`node` requires the `label` edge of a test matching `pattern`; the test's other edge never reaches `node`
+    (and, with only_raise_otherwise, cannot complete the function normally through it... it may only raise)"""
+    for t, lab in g.guards_of(node):
+        if lab != label or pmatch(pattern, t.ast, bound) is None:
+            continue
+        other = "T" if label == "F" else "F"
+        tgt = [m for m, l in g.succ[t.id] if l == other]
+        reach = g.reachable_from(tgt)
+        if node.id in reach:
+            continue
+        return True
+    return False
